@@ -1,10 +1,161 @@
 import TempestVerif.Drv.Util
-/- line-protocol handlers of property C09 (stub: no commands yet) -/
+import TempestVerif.Model.RngSites
+/-
+  line-protocol handlers of property C09 (the RNG programs of `Model.RngRun` / `Model.RngSites`, executed on the counting
+  generator `Model.RngSites.counter`, whose values are stream positions).
+
+    c09.syst rs=<nat|none>
+    c09.gmm  rs=<nat|none> ninit=<nat> ncomp=<nat>
+    c09.hgmm ninit=<nat> comps=<nats>
+    c09.iter <cfg> fuel=<nat> it=<iteration>
+    c09.run  <cfg> fuel=<nat> rs=<nat|none> resume=<fresh|continue|legacy|at:<j>> n=<k> i0=<iteration> … i<k-1>=<iteration>
+             fresh: empty history: seed (if rs) and run the k iterations.  continue: run() on a sampler that holds a history
+             (no resume path): the k iterations on the ambient stream, no seeding.  at:<j>: a writer seeded with rs runs iterations 0..j-1 and saves
+             (`saveState`); the answer is the log of the run RESUMED from that checkpoint (ambient state 0) for iterations
+             j..k-1.  legacy: a checkpoint without stored position: iterations 0..k-1 on the ambient stream.
+    c09.count <cfg> it=<iteration>                       → iterValues (closed form)
+  <cfg>       = N=<nat> D=<nat> tpcn=<0|1> syst=<0|1> clust=<0|1> rf=<nat> cinit=<nat> cap=<nat>
+  <iteration> = w/<discarded batches>/<nInf>/<nFin>  |  a/<refit 0|1>/<fits>/<groups>/<pool>/<steps>      (lists dot-separated, `-` = empty)
+  answer: the event log, run-length encoded:  S:<n> (process-wide seeding)  U*k Z*k G*k I*k (process-wide uniform / normal /
+  gamma / index values)  pS:<n> pU*k … (private generator), comma separated (`-` = empty); `c09.run` appends
+  ` starts=<positions at which the iterations start, relative to the seed position of the stream they run on>`;
+  R: = restore event (`np.random.set_state`).
+-/
 namespace Drv.C09
-open Drv
+open Drv Model.RngRun Model.RngSites
+
+def kindTag : Kind → String
+  | .uniform => "U" | .normal => "Z" | .gamma => "G" | .index => "I"
+
+def evTag : Ev Kind Nat → String
+  | .g k _ => kindTag k
+  | .gseed n => s!"S:{n}"
+  | .p k _ => "p" ++ kindTag k
+  | .pseed n => s!"pS:{n}"
+  | .grestore => "R:"
+
+def isSeedTag (t : String) : Bool := t.contains ':'
+
+def rle (l : List (Ev Kind Nat)) : String :=
+  let rec go : List String → Option (String × Nat) → List String → List String
+    | [], none, acc => acc.reverse
+    | [], some (t, n), acc => (s!"{t}*{n}" :: acc).reverse
+    | t :: ts, cur, acc =>
+      if isSeedTag t then
+        match cur with
+        | none => go ts none (t :: acc)
+        | some (c, n) => go ts none (t :: s!"{c}*{n}" :: acc)
+      else
+        match cur with
+        | none => go ts (some (t, 1)) acc
+        | some (c, n) => if c == t then go ts (some (c, n + 1)) acc else go ts (some (t, 1)) (s!"{c}*{n}" :: acc)
+  let toks := go (l.map evTag) none []
+  if toks.isEmpty then "-" else ",".intercalate toks
+
+def parseOptNat? (s : String) : Option (Option Nat) :=
+  if s == "none" then some none else s.toNat?.map some
+
+def parseDots? (s : String) : Option (List Nat) :=
+  if s == "-" || s.isEmpty then some [] else (s.splitOn ".").mapM String.toNat?
+
+def parseBool? (s : String) : Option Bool :=
+  if s == "1" then some true else if s == "0" then some false else none
+
+def parseCfg? (args : List (String × String)) : Option Cfg := do
+  let n ← (getArg args "N").bind String.toNat?
+  let d ← (getArg args "D").bind String.toNat?
+  let t ← (getArg args "tpcn").bind parseBool?
+  let s ← (getArg args "syst").bind parseBool?
+  let c ← (getArg args "clust").bind parseBool?
+  let rf ← (getArg args "rf").bind String.toNat?
+  let ci ← (getArg args "cinit").bind String.toNat?
+  let cap ← (getArg args "cap").bind String.toNat?
+  pure ⟨n, d, t, s, c, rf, ci, cap⟩
+
+def parseIter? (s : String) : Option Script :=
+  match s.splitOn "/" with
+  | ["w", dd, a, b] => do
+    let disc ← dd.toNat?
+    let nInf ← a.toNat?
+    let nFin ← b.toNat?
+    pure ⟨true, disc, nInf, nFin, false, [], [], 0, 0⟩
+  | ["a", r, f, gr, p, st] => do
+    let refit ← parseBool? r
+    let fits ← parseDots? f
+    let groups ← parseDots? gr
+    let pool ← p.toNat?
+    let steps ← st.toNat?
+    if steps = 0 then none else pure ⟨false, 0, 0, 0, refit, fits, groups, pool, steps⟩
+  | _ => none
+
+def obsOf (c : Cfg) (s : Script) : Obs :=
+  if s.warm then .warm s.disc s.nInf s.nFin else .anneal (if c.clustering then s.groups else [s.pool]) s.steps
+
+/-- one element of the run's data state = the iterations still to come -/
+def runIter (c : Cfg) (fuel : Nat) : List Script → Prog Kind Nat Nat (List Script)
+  | [] => .ret []
+  | s :: rest => (iteration c scripted fuel s).bind fun _ => .ret rest
+
+def starts (c : Cfg) (fuel : Nat) : List Script → St Nat → List Nat
+  | [], _ => []
+  | s :: rest, st => st.glob :: starts c fuel rest (run counter (iteration c (scripted (V := Nat)) fuel s) st).st
 
 def handle (cmd : String) (args : List (String × String)) : Option String :=
   match cmd with
+  | "c09.syst" =>
+    match (getArg args "rs").bind parseOptNat? with
+    | some rs => some (rle (run counter (systematicResample Kind.uniform rs) ⟨0, none⟩).log)
+    | none => some "bad-op"
+  | "c09.gmm" =>
+    match (getArg args "rs").bind parseOptNat?, (getArg args "ninit").bind String.toNat?,
+          (getArg args "ncomp").bind String.toNat? with
+    | some rs, some ni, some nc => some (rle (run counter (gmmFit Kind.uniform rs ni nc) ⟨0, none⟩).log)
+    | _, _, _ => some "bad-op"
+  | "c09.hgmm" =>
+    match (getArg args "ninit").bind String.toNat?, (getArg args "comps").bind parseNatList? with
+    | some ni, some cs => some (rle (run counter (hgmmFit Kind.uniform ni cs) ⟨0, none⟩).log)
+    | _, _ => some "bad-op"
+  | "c09.iter" =>
+    match parseCfg? args, (getArg args "fuel").bind String.toNat?, (getArg args "it").bind parseIter? with
+    | some c, some fuel, some s => some (rle (run counter (iteration c scripted fuel s) ⟨0, none⟩).log)
+    | _, _, _ => some "bad-op"
+  | "c09.count" =>
+    match parseCfg? args, (getArg args "it").bind parseIter? with
+    | some c, some s => some (toString (iterValues c (obsOf c s)))
+    | _, _ => some "bad-op"
+  | "c09.run" =>
+    match parseCfg? args, (getArg args "fuel").bind String.toNat?, (getArg args "rs").bind parseOptNat?,
+          getArg args "resume", (getArg args "n").bind String.toNat? with
+    | some c, some fuel, some rs, some resume, some n =>
+      match (List.range n).mapM (fun i => (getArg args s!"i{i}").bind parseIter?) with
+      | none => some "bad-op"
+      | some its =>
+        let contF : List Script → Bool := fun l => !l.isEmpty
+        if resume == "continue" then
+          let o := run counter (runSampling rs none (fun _ => true) contF (runIter c fuel) n its) ⟨0, none⟩
+          some (rle o.log ++ " starts=" ++ showList toString (starts c fuel its ⟨0, none⟩))
+        else if resume == "fresh" then
+          let o := run counter (runSampling rs none (fun _ => false) contF (runIter c fuel) n its) ⟨0, none⟩
+          let st0 : St Nat := (run counter (initFresh (K := Kind) (S := Nat) (V := Nat) rs) ⟨0, none⟩).st
+          some (rle o.log ++ " starts=" ++ showList toString ((starts c fuel its st0).map fun p => p - st0.glob))
+        else if resume == "legacy" then
+          let o := run counter (runSampling rs (some ⟨none, its⟩) (fun _ => false) contF (runIter c fuel) n []) ⟨0, none⟩
+          some (rle o.log ++ " starts=" ++ showList toString (starts c fuel its ⟨0, none⟩))
+        else match resume.splitOn ":" with
+          | ["at", js] =>
+            match js.toNat? with
+            | none => some "bad-op"
+            | some j =>
+              -- the writer: fresh seeded run of the first j iterations, then `saveState`
+              let st0 : St Nat := (run counter (initFresh (K := Kind) (S := Nat) (V := Nat) rs) ⟨0, none⟩).st
+              let w := run counter ((iterate contF (runIter c fuel) j its).bind saveState) st0
+              let o := run counter (runSampling rs (some w.res) (fun _ => false) contF (runIter c fuel) n []) ⟨0, none⟩
+              let ss := match w.res.rng with
+                | some p => starts c fuel w.res.data ⟨p, none⟩
+                | none => []
+              some (rle o.log ++ " starts=" ++ showList toString (ss.map fun p => p - st0.glob))
+          | _ => some "bad-op"
+    | _, _, _, _, _ => some "bad-op"
   | _ => none
 
 end Drv.C09
